@@ -1066,7 +1066,7 @@ class Server:
                     elif isinstance(result, tuple):
                         cmd, rest = result
                         f = self.commands_mapping.get(cmd)
-                        if f is not None and cmd in ("user", "pass", "abor", "quit"):
+                        if f is not None and cmd in ("user", "pass", "abor", "quit", "cwd", "cdup"):
                             # handlers run concurrently and user manager or
                             # path io calls may suspend: a login command is
                             # a barrier - it starts when the commands before
@@ -1074,7 +1074,10 @@ class Server:
                             # looked at before the login state is settled.
                             # The same goes for abor: the transfer command
                             # before it has started its worker by then; and
-                            # for quit: the commands before it are answered
+                            # for quit: the commands before it are answered;
+                            # and for cwd / cdup: a relative path means what
+                            # it meant when its command was sent, for every
+                            # look a handler takes at it
                             login_waiting = f, rest
                             connection.restart_offset = 0
                             continue
